@@ -24,10 +24,11 @@ ANCHORS = ['penman._parse:_parse_triples', 'penman._parse:_parse_triple', 'penma
 MIN_EVAL = {'quick': 2000, 'thorough': 40000}
 REQUIRED_COUNTERS = ['string_targets', 'variants', 'long_lists']
 SRCS = ['a', 'b', 'x1', '_', 'n-0', '\u03b5', 'b.c']
-ROLES = [':instance', ':ARG0', ':ARG1-of', ':mod', ':op10', 'polarity', ':x-y', ':\u00e9t\u00e9', ':a.b']
+ROLES = [':instance', ':ARG0', ':ARG1-of', ':mod', ':op10', 'polarity', ':x-y', ':\u00e9t\u00e9', ':a.b',
+         ':^sup', '^r', ':a^b']
 TGTS = ['b', 'x1', '7', '-1.5', '-', '+', 'foo-01', '"x"', '"a b"', '"(p)"', '"a, b"', '"^"', '"q ^ r"',
         '"\\"q\\""', '"a,b)"', '"#"', '""', '"\\\\"', '"\u00e9\u3000"', '0', '1e3', 'c.d', "it's", '"~1"',
-        '1,000', 'c,d', '1,000,000', '"f(x)^2 + g(y) ^ 3"', '"a) ^ b"', '")^"', '"x) ^\\" y"', '"(a , b) ^ (c ,d)"']
+        '1,000', 'c,d', '1,000,000', '"{{cite web}}"', '"{"', '"a}b{c"', 'x{0}', '{}', '"f(x)^2 + g(y) ^ 3"', '"a) ^ b"', '")^"', '"x) ^\\" y"', '"(a , b) ^ (c ,d)"']
 QCHARS = ['(', ')', ',', '^', ' ', 'a', '\\"', '\\\\', '~', ':', '#', '\t', '.']
 
 
@@ -69,6 +70,19 @@ def check_list(ctx, L, det):
                          detail=dict(det, text=txt[:400], got=back[:8], want=want[:8], api=how))
             if ok and ind and '\n' not in txt and len(L) > 1:
                 ctx.fail('format_triples:line-style', detail=dict(det, text=txt[:200]))
+
+
+def check_mixed_junctions(ctx, L, rng, det):
+    """one conjunction whose junctions are written in different styles"""
+    want = [(s, colon(r), t) for s, r, t in L]
+    parts = [f'{r.lstrip(":")}({s}, {t})' for s, r, t in L]
+    txt = parts[0]
+    for pt in parts[1:]:
+        txt += rng.choice(['^', ' ^', ' ^ ', ' ^\n', '^ ']) + pt
+    ctx.count('variants')
+    ok, back = ctx.call(penman.parse_triples, txt, clause='parse_triples(mixed junctions)')
+    if ok and back != want:
+        ctx.fail('mixed-junction-styles', detail=dict(det, text=txt[:300], got=back[:6], want=want[:6]))
 
 
 def check_variants(ctx, t1, t2, det):
@@ -145,6 +159,8 @@ def oracle(ctx, kind, p):
     if len(L) >= 2:
         t1, t2 = rng.sample(L, 2)
         check_variants(ctx, t1, t2, det)
+    if len(L) >= 3:
+        check_mixed_junctions(ctx, L, rng, det)
     ctx.case(L, len(L) >= 2 and strings > 0)
     if ctx.want_sample() and strings and len(L) >= 3:
         ctx.sample({'triples': L[:6], 'text': penman.format_triples(L[:6], indent=False)})
